@@ -43,6 +43,7 @@ type Case struct {
 var runCounter int64
 
 type runner struct {
+	lastDef string // the class defined or redefined last
 	c       Case
 	id      int64
 	scope   *slip.Scope
@@ -271,6 +272,7 @@ func run(c Case) (res *h.Result) {
 			return r.fail(res, fmt.Sprintf("%s => %s", src, out))
 		}
 		r.w.Define(f)
+		r.lastDef = f.C
 		if redef && oldOf == f.C && oldPrec != nil {
 			r.label("old-instance-after-redefinition")
 			for _, other := range r.w.Names() {
@@ -611,7 +613,11 @@ func (r *runner) query(when string) string {
 	if msg := r.defineProbes(); msg != "" {
 		return when + ": " + msg
 	}
-	for _, k := range r.w.Names() {
+	// the class defined last is looked at last: a call with an instance of a freshly (re)defined class is a miss in every
+	// dispatch cache, and a miss may heal what a hit on an untouched subclass would show
+	names := r.w.Names()
+	sort.SliceStable(names, func(i, j int) bool { return names[i] != r.lastDef && names[j] == r.lastDef })
+	for _, k := range names {
 		if msg := r.checkPrecedence(k, when); msg != "" {
 			return msg
 		}
